@@ -158,3 +158,25 @@ Theorem C06_unheard_responder_both_sides_give_up : forall prio sa dest dp pf p t
   Net21.clk s = t0 + 1250000.
 Proof. exact Net21Timeout.silent_originator. Qed.
 Print Assumptions C06_unheard_responder_both_sides_give_up.
+
+(* T06.16: the same on J1939-22.  B does not accept the destination: A's FD RTS stays unanswered; the network's clock advances
+   by exactly T3 = 1.25 s — not T5 = 3 s, which the standard reserves for the wait for the end-of-message acknowledge —, A's
+   job thread sends the Connection Abort (timeout), releases the session and returns its number to the pool; nothing was
+   delivered, B is untouched, nothing is left *)
+From J1939P Require Net22 Net22Timeout.
+Theorem C06_fd_silent_responder_abandoned_after_T3 : forall prio sa dest dp pf p t0 A0 B0,
+  0 <= prio < 8 -> 0 <= sa < 255 -> 0 <= dest < 255 -> 0 <= pf < 240 -> 0 <= dp < 2 -> 60 < len p < 16777216 -> 0 < t0 ->
+  f_snd A0 = [] /\ f_rcv A0 = [] /\ f_mpg A0 = [] /\ n_timers (base A0) = [] /\ n_cmdt_iv (base A0) = None /\
+    accepts (base A0) sa = true /\ 1 <= n_maxp (base A0) < 256 /\ f_rts A0 = repeat true tp22_pool_rts ->
+  f_snd B0 = [] /\ f_rcv B0 = [] /\ f_mpg B0 = [] /\ n_timers (base B0) = [] /\ 1 <= n_maxp (base B0) ->
+  accepts (base B0) dest = false ->
+  let pv := dp * 65536 + pf * 256 in
+  let nseg := Z.of_nat ((length p + 59) / 60) in
+  let s := Net22.steps22 4 (Net22.net22_send (Net22.net22_0 A0 B0 t0) dp pf dest prio sa p) in
+  Net22.pa s = [] /\ Net22.pb s = [] /\ f_snd (Net22.fa s) = [] /\ f_rcv (Net22.fa s) = [] /\
+  f_rts (Net22.fa s) = repeat true tp22_pool_rts /\ Net22.fb s = B0 /\
+  Net22.evb2 s = [] /\ Net22.eva2 s = [] /\
+  Net22.wab2 s = [tp22_rts prio sa dest 0 pv (len p) nseg (Z.min (n_maxp (base A0)) nseg); tp22_abort sa dest 0 tp22_reason_TIMEOUT pv] /\
+  Net22.wba2 s = [] /\ Net22.fclk s = t0 + 1250000.
+Proof. exact Net22Timeout.silent_responder22_abandoned_after_T3. Qed.
+Print Assumptions C06_fd_silent_responder_abandoned_after_T3.
